@@ -65,6 +65,8 @@ where
             .await
             .with_context(|| format!("file open failed {:?}", path))?;
         file.write_append_all(buf.freeze()).await?;
+        // Content must be durable before the header declares the file complete
+        file.fsyncdata().await?;
         header.set_written(true);
         let size = header.serialized_size();
         let mut serialized_header = BytesMut::with_capacity(size as usize);
